@@ -985,3 +985,14 @@ func (x *Exec) showVal(v Value) string {
 	}
 	return fmt.Sprintf("%T", v)
 }
+
+// timeType returns the types.Type of time.Time.
+func timeType(x *Exec) types.Type {
+	if p := x.Prog.ImportedPackage("time"); p != nil {
+		if m := p.Members["Time"]; m != nil {
+			return m.Type()
+		}
+	}
+	x.fail("package time not loaded")
+	return nil
+}
